@@ -371,3 +371,17 @@ Proof.
 Qed.
 Lemma ex_eval : match ceval ex_e with Ok c => vc_str c | Err e => Err e end = Ok ">=1.0,<1.5 || >=2.0,<=3.0 || >3.5,<=4.0 || >5.0".
 Proof. vm_compute. reflexivity. Qed.
+
+(* C12 on results of the algebra: the answers about two expressions over the closed class are answers about what the expressions mean *)
+Theorem answers_on_expressions B : mutual B -> forall e1 e2 x y, leaves_in B e1 -> leaves_in B e2 -> ceval e1 = Ok x -> ceval e2 = Ok y ->
+  (allows_all x y = true -> forall v, wf v = true -> regB B v = true -> cmeans e2 v = true -> cmeans e1 v = true) /\
+  (allows_any x y = Ok false -> forall v, wf v = true -> regB B v = true -> cmeans e1 v && cmeans e2 v = false).
+Proof.
+  intros MU e1 e2 x y L1 L2 H1 H2.
+  destruct (expr_exact B MU e1 x L1 H1) as [(Gx & Sx & Ix) Mx]. destruct (expr_exact B MU e2 y L2 H2) as [(Gy & Sy & Iy) My].
+  split.
+  - intros A v Wv R. rewrite <- (Mx v Wv R), <- (My v Wv R).
+    exact (allows_all_yes_is_right x y v Gx Gy Wv (regular_incl v _ _ Ix R) (regular_incl v _ _ Iy R) A).
+  - intros A v Wv R. rewrite <- (Mx v Wv R), <- (My v Wv R).
+    exact (allows_any_no_is_right x y Gx Gy Sx Sy A v Wv (regular_incl v _ _ Ix R) (regular_incl v _ _ Iy R)).
+Qed.
